@@ -2,6 +2,7 @@
 //! specifications under /verif/spec.  It records; it does not judge.
 mod amf;
 mod chunk;
+mod client;
 mod msg;
 mod server;
 mod sess;
@@ -43,6 +44,13 @@ fn main() {
             let shard: u64 = a.rest.get(1).map(|s| s.parse().unwrap()).unwrap_or(0);
             let nshards: u64 = a.rest.get(2).map(|s| s.parse().unwrap()).unwrap_or(1);
             let info = server::generate(&kind, &a.tier, a.seed, shard, nshards, &a.out);
+            println!("{}", info);
+        }
+        "client" => {
+            let kind = a.rest[0].clone();
+            let shard: u64 = a.rest.get(1).map(|s| s.parse().unwrap()).unwrap_or(0);
+            let nshards: u64 = a.rest.get(2).map(|s| s.parse().unwrap()).unwrap_or(1);
+            let info = client::generate(&kind, &a.tier, a.seed, shard, nshards, &a.out);
             println!("{}", info);
         }
         x => {
